@@ -40,6 +40,24 @@ CLAIMED.update({
             "DESIGN.md §3 C07", "symbolic XOR-term comparison of incremental vs from-scratch hash per move kind via abstract interpretation over go/ssa"),
 })
 
+CLAIMED.update({
+    "C05": ("other",
+            "Decides on all paths of the game-board code: the half-move clock update per move kind (resets exactly on pawn moves and captures) and that "
+            "the FEN clock is carried into the first node; that PushMove reports a draw iff exact repetition count >= 3 (5-fold named from 5), "
+            "clock >= 100 or insufficient material after captures/minor under-promotions, and otherwise leaves the result alone (path-wise over "
+            "move kind x colour with the position-level calls abstracted); that the exact re-count walks back at least as far as the clock, along "
+            "prev links, counting only exactly equal positions with equal side to move; mate/stalemate adjudication per colour. Not decided: the "
+            "pop-count arithmetic of HasInsufficientMaterial and concrete histories.",
+            "DESIGN.md §3 C05", "abstract interpretation of PushMove/updateNoProgress/AdjudicateNoLegalMoves per move kind and colour; induction-variable and guard analysis of the re-count loop"),
+    "C08": ("other",
+            "Symbolic composition: for each move kind and colour, PopMove interpreted on the abstract state left by every successful path of "
+            "PushMove restores every Board field to its initial term (turn, ply, full-move number, current node, per-hash counter, has-castled "
+            "flag), clears the forward link, reports Undecided and returns the pushed move; a rejected move writes nothing. Fork: literal "
+            "completeness over Board's fields, fresh counter map filled from the original, fresh head node sharing only the past; history nodes "
+            "and the Zobrist table are never written after creation (field-write ownership). Interleavings on concrete histories are not enumerated.",
+            "DESIGN.md §3 C08", "symbolic push;pop composition by abstract interpretation; composite-literal completeness and field-write ownership"),
+})
+
 NOT_APPLICABLE = {
     "C11": "Transparency of the transposition table is a numeric equality between two complete searches over all positions x depths x table sizes x search sequences; no sound static abstraction in reach bounds it. Its shape-visible clauses are decided under C12 (no store after cancellation, exact bound only after a full loop), C04 (root exits) and C17 (slot discipline).",
 }
